@@ -18,11 +18,13 @@ EXPLANATION = (
     "d features, m target columns, t test points): every matmul / solve / broadcast conforms and every function returns the "
     "documented shape - which rejects transposition and axis slips that square or single-column test cases hide; S5 the input-warping wrapper evaluates the wrapped kernel at warped "
     "inputs on every path of forward and diagonal (the diagonal may see the raw input only on the edge where the inner "
-    "diagonal does not depend on it), so that diagonal(X) and diag(K(X, X)) are the same function. "
+    "diagonal does not depend on it), so that diagonal(X) and diag(K(X, X)) are the same function; S6 joint samples are mean + L z: the lower Cholesky factor "
+    "of the posterior covariance multiplies the standard-normal draws from the left (orientation typing L / U / N - the factor "
+    "is square, so shape typing cannot see a missing transpose). "
     "NOT decided (the bulk of C08): that means, variances, likelihood values and updates equal the textbook expressions - "
     "a wrong sign, factor or a mathematically wrong but shape-correct formula is invisible to these rules.")
 
-FLOOR = {"S1": 3, "S2": 4, "S3": 8, "S4": 5, "S5": 2}
+FLOOR = {"S1": 3, "S2": 4, "S3": 8, "S4": 5, "S5": 2, "S6": 1}
 
 MODP = "syne_tune.optimizer.schedulers.searchers.bayesopt.gpautograd.posterior_utils."
 
@@ -219,6 +221,50 @@ def s5(ctx, rep):
     return n
 
 
+def s6(ctx, rep):
+    """joint samples are mean + L z with L the LOWER Cholesky factor of the posterior covariance (cov = L L^T): in every
+    product of the factor with the standard-normal draws the factor is on the left as it is, or on the right transposed.
+    A square factor hides the slip from shape typing."""
+    from ..engine import deref, flows_into
+    P = ctx.P
+    f = P.func(MODP + "sample_posterior_joint")
+
+    def orient(e, depth=4):
+        """'L' / 'U' if e is the Cholesky factor / its transpose, 'N' / 'NT' if it is (the transpose of) the normal draws"""
+        e0 = e
+        e = deref(f, e)
+        if isinstance(e, ast.Call) and fn_name(e) == "cholesky_factorization":
+            return "L"
+        if isinstance(e, ast.Call) and fn_name(e) == "transpose" and e.args and depth > 0:
+            o = orient(e.args[0], depth - 1)
+            return {"L": "U", "U": "L", "N": "NT", "NT": "N"}.get(o)
+        if isinstance(e, ast.Attribute) and e.attr == "T" and depth > 0:
+            o = orient(e.value, depth - 1)
+            return {"L": "U", "U": "L", "N": "NT", "NT": "N"}.get(o)
+        if flows_into(f, e0, lambda y: isinstance(y, ast.Call) and fn_name(y) == "normal") and \
+                not flows_into(f, e0, lambda y: isinstance(y, ast.Call) and fn_name(y) == "cholesky_factorization"):
+            return "N"
+        return None
+    n = 0
+    for x in walk_shallow(f.node):
+        a = b = None
+        if isinstance(x, ast.Call) and fn_name(x) in ("dot", "matmul") and len(x.args) == 2:
+            a, b = x.args
+        elif isinstance(x, ast.BinOp) and isinstance(x.op, ast.MatMult):
+            a, b = x.left, x.right
+        if a is None:
+            continue
+        oa, ob = orient(a), orient(b)
+        if {oa, ob} & {"L", "U"} and {oa, ob} & {"N", "NT"}:
+            n += 1
+            ok = (oa, ob) in (("L", "N"), ("NT", "U"))
+            rep.put(ok, "S6", "agreement", "sample_posterior_joint: samples = L z (lower factor on the left, or z^T L^T)", f, x, f"{oa} · {ob}",
+                    f"`{U(x)[:80]}` multiplies {oa} · {ob}: the samples have covariance L^T L instead of L L^T = the posterior covariance "
+                    "(the factor is square, so every shape still fits; means are unaffected)")
+    if n != 1:
+        raise AnchorError(f"sample_posterior_joint: {n} products of the Cholesky factor with the normal draws found (1 confirmed)")
+
+
 def run(ctx, rep, tier="quick"):
     s1(ctx, rep)
     s2(ctx, rep)
@@ -226,3 +272,4 @@ def run(ctx, rep, tier="quick"):
     s3b(ctx, rep)
     s4(ctx, rep)
     s5(ctx, rep)
+    s6(ctx, rep)
